@@ -15,34 +15,47 @@ Proof.
   destruct n as [|n]; destruct k as [|k]; cbn; auto. apply IH. lia.
 Qed.
 
-(* [place] over exactly n decoded responses never indexes out of range, fills every slot, and only with data
-   that the service returned *)
-Lemma place_spec n rs : forall i results,
-  List.length results = n -> i + List.length rs = n -> filled i results ->
-  match place n i rs results with
-  | inl QPanic => False
-  | inl (QOk _) => False
-  | inl (QErr _) => True
-  | inr res => Forall (fun r => r_errors r = [] /\ r_data r <> None) rs /\ List.length res = n /\ filled n res /\
-               (forall k, i <= k -> k < n -> nth_error res k = option_map (fun r => r_data r) (nth_error rs (k - i))) /\
-               (forall k, k < i -> nth_error res k = nth_error results k)
-  end.
+(* [place] over decoded responses: never out of range when they fit, collects exactly the errors, and fills the
+   slot of every element that has data and no errors with that data *)
+Definition good (r : resp) : Prop := r_errors r = [] /\ r_data r <> None.
+
+Lemma place_spec n rs : forall i results errs,
+  List.length results = n -> i + List.length rs = n ->
+  exists res, place n i rs results errs = Some (res, errs ++ flat_map resp_errors rs) /\
+    List.length res = n /\
+    (forall k, i <= k -> k < n -> match nth_error rs (k - i) with
+                                  | Some r => (good r -> nth_error res k = Some (r_data r)) /\ (~ good r -> nth_error res k = nth_error results k)
+                                  | None => True end) /\
+    (forall k, k < i -> nth_error res k = nth_error results k).
 Proof.
-  induction rs as [|r t IH]; intros i results Hl Hn Hf; cbn [place].
-  - cbn in Hn. rewrite Nat.add_0_r in Hn. subst i. repeat split; auto. intros k H1 H2. lia.
-  - destruct (r_errors r) as [|e es] eqn:Ee; [|exact I].
-    destruct (r_data r) as [d|] eqn:Ed; [|exact I].
-    cbn [List.length] in Hn. destruct (Nat.ltb_spec i n) as [Hlt|Hge]; [|lia].
-    assert (Hl' : List.length (list_set i (Some d) results) = n) by (rewrite list_set_length; exact Hl).
-    assert (Hf' : filled (S i) (list_set i (Some d) results)).
-    { intros k Hk. rewrite nth_error_list_set by lia. destruct (Nat.eqb_spec k i); [eauto|]. apply Hf. lia. }
-    specialize (IH (S i) _ Hl' ltac:(lia) Hf').
-    destruct (place n (S i) t (list_set i (Some d) results)) as [q|res]; [exact IH|].
-    destruct IH as (H0 & H1 & H2 & H3 & H4). split; [constructor; [split; [exact Ee|congruence]|exact H0]|]. repeat split; auto.
-    + intros k Hk1 Hk2. destruct (Nat.eq_dec k i) as [->|Hne].
-      * rewrite H4 by lia. rewrite nth_error_list_set by lia. rewrite Nat.eqb_refl, Nat.sub_diag. cbn. now rewrite Ed.
-      * rewrite H3 by lia. replace (k - i) with (S (k - S i)) by lia. reflexivity.
-    + intros k Hk. rewrite H4 by lia. rewrite nth_error_list_set by lia. destruct (Nat.eqb_spec k i); [lia|reflexivity].
+  induction rs as [|r t IH]; intros i results errs Hl Hn; cbn [place flat_map].
+  - exists results. rewrite app_nil_r. repeat split; auto. intros k H1 H2. cbn in Hn. lia.
+  - cbn [List.length] in Hn. unfold resp_errors at 1.
+    destruct (r_errors r) as [|e es] eqn:Ee.
+    + destruct (r_data r) as [d|] eqn:Ed.
+      * destruct (Nat.ltb_spec i n) as [Hlt|Hge]; [|lia].
+        destruct (IH (S i) (list_set i (Some d) results) errs) as (res & Hp & Hlen & H3 & H4); [now rewrite list_set_length|lia|].
+        exists res. cbn [app]. split; [exact Hp|]. split; [exact Hlen|]. split.
+        -- intros k Hk1 Hk2. destruct (Nat.eq_dec k i) as [->|Hne].
+           ++ rewrite Nat.sub_diag. cbn. split.
+              ** intros _. rewrite H4 by lia. rewrite nth_error_list_set by lia. now rewrite Nat.eqb_refl, Ed.
+              ** intros Hng. exfalso. apply Hng. split; [exact Ee|congruence].
+           ++ specialize (H3 k ltac:(lia) Hk2). replace (k - i) with (S (k - S i)) by lia. cbn.
+              destruct (nth_error t (k - S i)) as [r'|]; [|exact I]. destruct H3 as [Ha Hb]. split; [exact Ha|].
+              intros Hng. rewrite (Hb Hng). rewrite nth_error_list_set by lia. destruct (Nat.eqb_spec k i); [lia|reflexivity].
+        -- intros k Hk. rewrite H4 by lia. rewrite nth_error_list_set by lia. destruct (Nat.eqb_spec k i); [lia|reflexivity].
+      * destruct (IH (S i) results (errs ++ [nodata_error])) as (res & Hp & Hlen & H3 & H4); [exact Hl|lia|].
+        exists res. rewrite <- app_assoc in Hp. split; [exact Hp|]. split; [exact Hlen|]. split.
+        -- intros k Hk1 Hk2. destruct (Nat.eq_dec k i) as [->|Hne].
+           ++ rewrite Nat.sub_diag. cbn. split; [intros [_ Hd]; congruence|intros _; apply H4; lia].
+           ++ specialize (H3 k ltac:(lia) Hk2). replace (k - i) with (S (k - S i)) by lia. exact H3.
+        -- intros k Hk. apply H4. lia.
+    + destruct (IH (S i) results (errs ++ e :: es)) as (res & Hp & Hlen & H3 & H4); [exact Hl|lia|].
+      exists res. rewrite <- app_assoc in Hp. split; [exact Hp|]. split; [exact Hlen|]. split.
+      * intros k Hk1 Hk2. destruct (Nat.eq_dec k i) as [->|Hne].
+        -- rewrite Nat.sub_diag. cbn. split; [intros [He _]; congruence|intros _; apply H4; lia].
+        -- specialize (H3 k ltac:(lia) Hk2). replace (k - i) with (S (k - S i)) by lia. exact H3.
+      * intros k Hk. apply H4. lia.
 Qed.
 
 Lemma all_some_filled {A} (l : list (option A)) :
@@ -54,19 +67,63 @@ Proof.
   rewrite E. exists (d :: ds). cbn. now rewrite M.
 Qed.
 
+Lemma no_errors_all_good rs : flat_map resp_errors rs = [] -> Forall good rs.
+Proof.
+  induction rs as [|r t IH]; cbn; intros H; [constructor|].
+  apply app_eq_nil in H as [H1 H2]. constructor; [|auto].
+  unfold resp_errors in H1. destruct (r_errors r) eqn:E; [|discriminate].
+  destruct (r_data r) eqn:D; [split; [exact E|congruence]|discriminate].
+Qed.
+
+(* the outcome of queryBatch on n decoded responses *)
+Lemma query_batch_decoded n rs : n <> 0 -> List.length rs = n ->
+  match place n 0 rs (repeat None n) [] with
+  | Some (res, es) => es = flat_map resp_errors rs /\
+                      (es = [] -> exists ds, all_some res = Some ds /\ map Some ds = map r_data rs)
+  | None => False
+  end.
+Proof.
+  intros Hn Hl.
+  destruct (place_spec n rs 0 (repeat None n) [] (repeat_length _ _) ltac:(cbn; lia)) as (res & Hp & Hlen & H3 & _).
+  rewrite Hp. cbn [app]. split; [reflexivity|]. intros He.
+  pose proof (no_errors_all_good rs He) as Hg.
+  assert (Hres : forall k, k < n -> nth_error res k = option_map r_data (nth_error rs k)).
+  { intros k Hk. specialize (H3 k ltac:(lia) Hk). rewrite Nat.sub_0_r in H3.
+    destruct (nth_error rs k) as [r|] eqn:Nk.
+    - destruct H3 as [Ha _]. cbn. apply Ha. rewrite Forall_forall in Hg. apply Hg. eapply nth_error_In; eauto.
+    - apply nth_error_None in Nk. lia. }
+  destruct (all_some_filled res) as (ds & Eq & M).
+  { intros k Hk. rewrite Hlen in Hk. rewrite (Hres k Hk).
+    destruct (nth_error rs k) as [r|] eqn:Nk; [|apply nth_error_None in Nk; lia]. cbn.
+    rewrite Forall_forall in Hg. destruct (Hg r (nth_error_In _ _ Nk)) as [_ Hd]. destruct (r_data r) as [d|]; [eauto|contradiction]. }
+  exists ds. split; [exact Eq|]. rewrite M.
+  apply Base.ListX.nth_error_ext_eq. intros k. rewrite nth_error_map.
+  destruct (Nat.lt_ge_cases k n) as [Hlt|Hge]; [apply Hres; exact Hlt|].
+  rewrite (proj2 (nth_error_None res k)) by lia. rewrite (proj2 (nth_error_None rs k)) by lia. reflexivity.
+Qed.
+
 (* no answer whatsoever makes the queryer index out of range or hand a nil result on *)
 Theorem query_batch_no_panic n a : query_batch n a <> QPanic.
 Proof.
-  unfold query_batch. destruct (Nat.eqb n 0); [discriminate|].
+  unfold query_batch. destruct (Nat.eqb_spec n 0) as [|Hn]; [discriminate|].
   destruct a as [| |[j|]]; try discriminate.
   destruct (match j with JNull => Some [] | JArr l => decode_resps l | _ => None end) as [rs|]; [|discriminate].
   destruct (Nat.eqb_spec (List.length rs) n) as [E|E]; cbn [negb]; [|discriminate].
-  pose proof (place_spec n rs 0 (repeat None n) (repeat_length _ _) ltac:(cbn; lia) ltac:(intros k Hk; lia)) as H.
-  destruct (place n 0 rs (repeat None n)) as [q|res].
-  - destruct q; [discriminate|contradiction|contradiction].
-  - destruct H as (_ & H1 & H2 & _). destruct (all_some_filled res) as (ds & Eq & _).
-    { rewrite H1. exact H2. }
-    rewrite Eq. discriminate.
+  pose proof (query_batch_decoded n rs Hn E) as H.
+  destruct (place n 0 rs (repeat None n) []) as [[res es]|]; [|contradiction].
+  destruct H as [_ H]. destruct es as [|e es]; [|discriminate].
+  destruct (H eq_refl) as (ds & Eq & _). rewrite Eq. discriminate.
+Qed.
+
+Lemma failure_has_errors rs n : List.length rs = n ->
+  (existsb (fun r => match r_errors r with [] => false | _ => true end) rs ||
+   existsb (fun r => match r_data r with None => true | _ => false end) rs) = true ->
+  flat_map resp_errors rs <> [].
+Proof.
+  intros _ Hs Hnil. apply no_errors_all_good in Hnil. rewrite Forall_forall in Hnil.
+  apply orb_true_iff in Hs as [Hs|Hs]; apply existsb_exists in Hs as (r & Hin & Hr); destruct (Hnil r Hin) as [He Hd].
+  - rewrite He in Hr. discriminate.
+  - destruct (r_data r); [discriminate|contradiction].
 Qed.
 
 (* every failure signal of the statement is reported as an error of the sub-request *)
@@ -79,13 +136,25 @@ Proof.
   - (* null body *) cbn. destruct n; [contradiction|]. eexists; reflexivity.
   - destruct (decode_resps l) as [rs|] eqn:D; [|eexists; reflexivity].
     destruct (Nat.eqb_spec (List.length rs) n) as [E|E]; cbn [negb orb] in *; [|eexists; reflexivity].
-    pose proof (place_spec n rs 0 (repeat None n) (repeat_length _ _) ltac:(cbn; lia) ltac:(intros k Hk; lia)) as H.
-    destruct (place n 0 rs (repeat None n)) as [q|res].
-    + destruct q; [eexists; reflexivity|contradiction|contradiction].
-    + exfalso. destruct H as (H0 & _). rewrite Forall_forall in H0.
-      apply orb_true_iff in Hs as [Hs|Hs]; apply existsb_exists in Hs as (r & Hin & Hr); destruct (H0 r Hin) as [He Hd].
-      * rewrite He in Hr. discriminate.
-      * destruct (r_data r); [discriminate|contradiction].
+    pose proof (query_batch_decoded n rs Hn E) as H.
+    destruct (place n 0 rs (repeat None n) []) as [[res es]|]; [|contradiction].
+    destruct H as [He _]. pose proof (failure_has_errors rs n E Hs) as Hne. rewrite <- He in Hne.
+    destruct es; [contradiction|eexists; reflexivity].
+Qed.
+
+(* service errors intact (C10): the error reported for the batch is exactly the concatenation, in order, of the
+   errors of every failing element *)
+Theorem batch_errors_are_all_service_errors n l es : n <> 0 ->
+  query_batch n (ABody (Some (JArr l))) = QErr (EServiceErrors es) ->
+  exists rs, decode_resps l = Some rs /\ es = flat_map resp_errors rs.
+Proof.
+  intros Hn H. unfold query_batch in H. rewrite (proj2 (Nat.eqb_neq n 0) Hn) in H.
+  destruct (decode_resps l) as [rs|]; [|discriminate]. exists rs. split; [reflexivity|].
+  destruct (Nat.eqb_spec (List.length rs) n) as [E|E]; cbn [negb] in H; [|discriminate].
+  pose proof (query_batch_decoded n rs Hn E) as Hq.
+  destruct (place n 0 rs (repeat None n) []) as [[res es']|]; [|contradiction].
+  destruct Hq as [He _]. destruct es' as [|e es']; [destruct (all_some res); discriminate|].
+  inversion H; subst. exact He.
 Qed.
 
 (* no invented values: what is handed to the executor is, slot by slot, the `data` object of the service's answer *)
@@ -95,15 +164,10 @@ Proof.
   intros H Hn. unfold query_batch in H. rewrite (proj2 (Nat.eqb_neq n 0) Hn) in H.
   destruct (decode_resps l) as [rs|]; [|discriminate]. exists rs. split; [reflexivity|].
   destruct (Nat.eqb_spec (List.length rs) n) as [E|E]; cbn [negb] in H; [|discriminate].
-  pose proof (place_spec n rs 0 (repeat None n) (repeat_length _ _) ltac:(cbn; lia) ltac:(intros k Hk; lia)) as Hp.
-  destruct (place n 0 rs (repeat None n)) as [q|res]; [destruct q; try discriminate; contradiction|].
-  destruct Hp as (_ & H1 & H2 & H3 & _).
-  destruct (all_some_filled res) as (ds' & Eq & M). { rewrite H1. exact H2. }
-  rewrite Eq in H. inversion H; subst ds'. rewrite M.
-  apply Base.ListX.nth_error_ext_eq. intros k. rewrite nth_error_map.
-  destruct (Nat.lt_ge_cases k n) as [Hlt|Hge].
-  - rewrite (H3 k ltac:(lia) Hlt), Nat.sub_0_r. reflexivity.
-  - rewrite (proj2 (nth_error_None res k)) by lia. rewrite (proj2 (nth_error_None rs k)) by lia. reflexivity.
+  pose proof (query_batch_decoded n rs Hn E) as Hq.
+  destruct (place n 0 rs (repeat None n) []) as [[res es]|]; [|contradiction].
+  destruct Hq as [_ Hq]. destruct es as [|e es]; [|discriminate].
+  destruct (Hq eq_refl) as (ds' & Eq & M). rewrite Eq in H. inversion H; subst. exact M.
 Qed.
 
 (* node extraction: a missing or mistyped `node` is an error, never a value *)
